@@ -96,6 +96,7 @@ func init() {
 			{},
 			{Rewrite: "/api/*:/$1", ReqH: []string{"X-Req:q1"}, RespH: []string{"X-Resp:r1"}, Query: []string{"k:v"}},
 			{Rewrite: "/rest/*/user/*:/$1/$2", ReqH: []string{"X-Req:q1", "X-Client:added"}, RespH: []string{"X-Resp:r1", "Vary:Origin"}, Query: []string{"k:v", "a:9"}},
+			{Rewrite: "/img/*:/static/$1_thumb"},
 		}
 		conds := []struct {
 			name string
@@ -110,7 +111,7 @@ func init() {
 			{"range", http.Header{"Range": {"bytes=0-3"}}, 0},
 		}
 		paths := []string{"/api/users/1", "/rest/v1/user/7", "/plain", "/img/cat"}
-		st.Bounds = fmt.Sprintf("5 methods x 2 bodies x %d queries x %d locations x 2 upstream encodings x %d conditionals x 3 key states x %d paths", len(queries), len(locs), len(conds), len(paths))
+		st.Bounds = fmt.Sprintf("5 methods x 2 bodies x %d queries x %d locations x 2 upstream encodings x %d conditionals x 4 key states x %d paths", len(queries), len(locs), len(conds), len(paths))
 		var idx int64
 		for li, lc := range locs {
 			for _, uae := range []string{"", "snz"} {
